@@ -142,6 +142,9 @@ func oracleC13(op string, a []string) string {
 	if op != "conv" || len(a) < 2 {
 		return skip
 	}
+	if r := oracleC13pure(a); r != "" {
+		return r
+	}
 	fn, a := a[0], a[1:]
 	switch fn {
 	case "snssai2n":
@@ -556,4 +559,13 @@ func genConv13(g *Gen, w *bufio.Writer) {
 		fmt.Fprintf(w, "conv ladn2m %s\n", hexs(b))
 		fmt.Fprintf(w, "conv ladn2m %s\n", hexs(append(b, b...)))
 	}
+}
+
+// a conversion is a function of its argument octets: same answer on a second call with the same slices, arguments untouched
+func oracleC13pure(a []string) string {
+	r := withTimeout(func() string { return convOp(a) })
+	if i := strings.Index(r, " !"); i >= 0 {
+		return "FAIL conversion " + a[0] + " is not a function of its arguments:" + r[i+1:]
+	}
+	return ""
 }
